@@ -280,6 +280,19 @@ func (i *IOCbor) PreSign(entry iface.IPFSLogEntry) (iface.IPFSLogEntry, error) {
 	}
 
 	if len(entry.GetNext()) == 0 && len(entry.GetRefs()) == 0 {
+		add := entry.GetAdditionalData()
+		_, okEncrypted := add[iface.KeyEncryptedLinks]
+		_, okEncryptedNonce := add[iface.KeyEncryptedLinksNonce]
+
+		if !okEncrypted && !okEncryptedNonce {
+			return entry, nil
+		}
+
+		// sealed links carried over from another entry (e.g. by Copy) are not this entry's links
+		entry = entry.Copy()
+		delete(entry.GetAdditionalData(), iface.KeyEncryptedLinks)
+		delete(entry.GetAdditionalData(), iface.KeyEncryptedLinksNonce)
+
 		return entry, nil
 	}
 
